@@ -38,9 +38,9 @@ macro_rules! sched_h {
 }
 //@ prop=C15 tier=quick cost=30 fns="Mp4Writer::compute_interleave_schedule,slice::sort_by_key" bound="1 video + 1 audio sample, all u64 pts" unwind=5
 sched_h!(c15_schedule_v1a1, 1, 1, 5);
-//@ prop=C15 tier=quick cost=60 fns="Mp4Writer::compute_interleave_schedule,slice::sort_by_key" bound="2 video + 1 audio samples, all u64 pts" unwind=6
+//@ prop=C15 tier=quick cost=38 fns="Mp4Writer::compute_interleave_schedule,slice::sort_by_key" bound="2 video + 1 audio samples, all u64 pts" unwind=6
 sched_h!(c15_schedule_v2a1, 2, 1, 6);
-//@ prop=C15 tier=quick cost=120 fns="Mp4Writer::compute_interleave_schedule,slice::sort_by_key" bound="2 video + 2 audio samples, all u64 pts" unwind=7
+//@ prop=C15 tier=quick cost=50 fns="Mp4Writer::compute_interleave_schedule,slice::sort_by_key" bound="2 video + 2 audio samples, all u64 pts" unwind=7
 sched_h!(c15_schedule_v2a2, 2, 2, 7);
 //@ prop=C15 tier=thorough cost=300 fns="Mp4Writer::compute_interleave_schedule,slice::sort_by_key" bound="3 video + 2 audio samples, all u64 pts" unwind=8 timeout=2500
 sched_h!(c15_schedule_v3a2, 3, 2, 8);
@@ -99,9 +99,9 @@ macro_rules! order_h {
         }
     };
 }
-//@ prop=C15 tier=quick cost=300 fns="Mp4Writer::finalize,finalize_standard,compute_interleave_schedule" bound="standard layout, 1 video + 1 audio sample, all u64 pts" unwind=6 stubs="build_moov_box(recording stand-in)" timeout=1200
+//@ prop=C15 tier=quick cost=149 fns="Mp4Writer::finalize,finalize_standard,compute_interleave_schedule" bound="standard layout, 1 video + 1 audio sample, all u64 pts" unwind=6 stubs="build_moov_box(recording stand-in)" timeout=1200
 order_h!(c15_order_std_v1a1, 1, 1, false, 6);
-//@ prop=C15 tier=quick cost=400 fns="Mp4Writer::finalize,finalize_fast_start,compute_interleave_schedule" bound="fast start, 1 video + 1 audio sample, all u64 pts" unwind=6 stubs="build_moov_box(recording stand-in)" timeout=1200
+//@ prop=C15 tier=quick cost=230 fns="Mp4Writer::finalize,finalize_fast_start,compute_interleave_schedule" bound="fast start, 1 video + 1 audio sample, all u64 pts" unwind=6 stubs="build_moov_box(recording stand-in)" timeout=1200
 order_h!(c15_order_fast_v1a1, 1, 1, true, 6);
 //@ prop=C15 tier=thorough cost=900 fns="Mp4Writer::finalize,finalize_standard,compute_interleave_schedule" bound="standard layout, 2 video + 1 audio samples, all u64 pts" unwind=6 stubs="build_moov_box(recording stand-in)" timeout=3000 mem=30
 order_h!(c15_order_std_v2a1, 2, 1, false, 6);
